@@ -106,6 +106,19 @@ def rule_sqlstate(ctx):
                         ctx.violation("C07.b", "cursor", "FakeSnowflakeCursor.execute", f"sqlstate after {mode}", loc,
                                       f"after {kind} failed with {mode} cursor.sqlstate is `{tagof(st)}` (expected {want!r}) / the error is "
                                       f"{'not raised' if exc is None else 'raised'}")
+    # a statement that matches nop_regexes is a successful execute too
+    from ..values import Lst
+    for tr in run_execute(prog, "SELECT", None, nop_regexes=Lst([Const("^CALL")])):
+        if tr.path.outcome != "return":
+            continue
+        n += 1
+        st = tr.cur.attrs.get("_sqlstate")
+        ok = isinstance(st, Const) and st.v is None
+        ctx.ob("C07.b", f"sqlstate reset by a successful execute with nop_regexes configured (parsed={tr.hooks.parsed})", ok, loc, tagof(st))
+        if not ok:
+            ctx.violation("C07.b", "cursor", "FakeSnowflakeCursor.execute", "sqlstate reset on the nop_regexes path", loc,
+                          f"after a successful execute ({'no-op match' if not tr.hooks.parsed else 'normal path'}, nop_regexes configured) "
+                          f"cursor.sqlstate is `{tagof(st)}`: the state of an earlier failure is shown until some later statement resets it")
     ctx.floor("C07.b traces", n, 9)
     # the public property returns the stored attribute
     g = prog.fn("cursor", "FakeSnowflakeCursor.sqlstate")
